@@ -3,6 +3,7 @@ import RedisVerif.Model.SimRng
 import RedisVerif.Model.SimKernel
 import RedisVerif.Model.SimHarness
 import RedisVerif.Model.SimTyped
+import RedisVerif.Model.SimMore
 
 /-
   C20 sub-driver (stateful).
@@ -45,6 +46,12 @@ structure St where
   rng : Rng := Rng.new 0
   sim : Sim := Sim.new 0
   tq : TimerQ := {}
+  /-- the generator of the `SimulationContext` (`SimulatedRuntime::rng()`) -/
+  crng : Rng := Rng.new 0
+  /-- `clock_offsets`: node ↦ (fixed, ppm, anchor); a `HashMap` that is only looked up -/
+  offsets : NMap (Int × Int × Int) := []
+  /-- `SimulationConfig::simulation_start_epoch` -/
+  epoch : Int := 0
 
 def St.init : St := {}
 
@@ -161,7 +168,46 @@ def cmd (st : St) : P (St × String) := do
     let m ← nat
     let (s, evs) := st.sim.runUntil m
     pure ({ st with sim := s }, s!"now={s.now} ev {showEvents evs}")
-  | "CTX" => pure ({ st with tq := {} }, "ok")
+  | "SIME" =>
+    let seed ← nat
+    let e ← int
+    pure ({ st with sim := Sim.new seed.toUInt64, epoch := e }, "ok")
+  | "EPOCH" => pure (st, toString st.epoch)
+  | "SRNG" =>
+    let (v, r) := st.sim.rng.nextU64
+    pure ({ st with sim := { st.sim with rng := r } }, toString v.toNat)
+  | "RUNALL" =>
+    let (s, evs) := st.sim.runUntil (2 ^ 64 - 1)
+    pure ({ st with sim := s }, s!"now={s.now} n={evs.length} {" ".intercalate (evs.map fun e => s!"{e.time}:{e.host}")}")
+  | "CTX" => pure ({ st with tq := {}, crng := Rng.new 0, offsets := [] }, "ok")
+  | "CTXS" =>
+    let seed ← nat
+    pure ({ st with tq := {}, crng := Rng.new seed.toUInt64, offsets := [] }, "ok")
+  | "OFFSET" =>
+    let node ← nat
+    let f ← int
+    let p ← int
+    let a ← int
+    pure ({ st with offsets := NMap.insert node (f, p, a) st.offsets }, "ok")
+  | "LOCAL" =>
+    let node ← nat
+    match st.offsets.get node with
+    | some (f, p, a) => pure (st, toString (clockApply f p a st.tq.now))
+    | none => pure (st, toString st.tq.now)
+  | "NID" =>
+    -- `next_id()` is the counter `add_timer` takes its ids from
+    pure ({ st with tq := { st.tq with nextId := st.tq.nextId + 1 } }, toString st.tq.nextId)
+  | "CRANGE" =>
+    let lo ← nat
+    let hi ← nat
+    let (v, r) := simGenRange lo hi st.crng
+    pure ({ st with crng := r }, showDrawNat v)
+  | "DBG" =>
+    let node ← nat
+    let lt := match st.offsets.get node with
+      | some (f, p, a) => clockApply f p a st.tq.now
+      | none => st.tq.now
+    pure (st, s!"SimulationContext \{ time: Timestamp({st.tq.now}) } | SimulatedRuntime \{ node_id: NodeId({node}) } | SimulatedTimeSource \{ node_id: NodeId({node}), time_ms: {lt} }")
   | "TADD" =>
     let w ← nat
     let (id, q) := st.tq.addTimer w
@@ -191,8 +237,31 @@ def cmd (st : St) : P (St × String) := do
     let seed ← nat
     let ops ← nat
     let cfg ← restNats
-    match (SimTyped.run h seed ops cfg).orElse (fun _ => SimHarness.run h seed ops cfg) with
+    match ((SimTyped.run h seed ops cfg).orElse (fun _ => SimMore.run h seed ops cfg)).orElse (fun _ => SimHarness.run h seed ops cfg) with
     | some t => pure (st, t)
+    | none => failure
+  | "DELTAS" =>
+    -- `get_all_deltas()` given the map order of this process: <sorted flag> <key indices in map order…>
+    let flag ← nat
+    let pi ← restNats
+    pure (st, showList (SimMore.getAllDeltas (flag == 1) pi))
+  | "BSTATS" =>
+    -- `SimulationResult.buggify_stats` (checks of process.crash): <resets flag> <on the thread before> <this run's own>
+    let flag ← nat
+    let prev ← nat
+    let own ← nat
+    let m := SimMore.finalizeStats (flag == 1) (if prev == 0 then [] else [(0, prev)]) (if own == 0 then [] else [(0, own)])
+    pure (st, toString ((NMap.get m 0).getD 0))
+  | "RUNL" =>
+    -- debugging aid: the predicted trace itself (families of Model/SimMore), lines joined by " ¦ "
+    let h ← tok
+    let _preset ← tok
+    let seed ← nat
+    let ops ← nat
+    let cfg ← restNats
+    match SimMore.runLines h seed ops cfg with
+    | some (.ok l) => pure (st, " ¦ ".intercalate l)
+    | some (.error e) => pure (st, e)
     | none => failure
   | _ => failure
 
